@@ -1076,3 +1076,209 @@ Proof.
   - apply in_split in H2. destruct H2 as [p1 [p2 ->]]. rewrite filter_app, app_length. cbn.
     rewrite E, N.eqb_refl. cbn. lia.
 Qed.
+
+(* ------------------------------------------------------------------------------------------ *)
+(* No entry is lost: a name that entered the outstanding dictionary (existing entry, or a run()
+   that returned GOOD) stays there until it has been seen complete.  (The depth bounds above are
+   upper bounds; this is what makes the persisted id list of a submitter round cover every batch
+   that may still be active.) *)
+Definition onames (l : list entry) : list N := map e_name l.
+
+Fixpoint started_ok (log : list ev) : list N :=
+  match log with
+  | [] => []
+  | EvRun j _ true _ :: r => j_name j :: started_ok r
+  | _ :: r => started_ok r
+  end.
+
+Lemma started_ok_app a b : started_ok (a ++ b) = started_ok a ++ started_ok b.
+Proof.
+  induction a as [|e r IH]; cbn; [reflexivity|].
+  destruct e as [j bl [|] l| | |]; cbn; rewrite IH; reflexivity.
+Qed.
+
+Lemma started_ok_norun evs : Forall norun evs -> started_ok evs = [].
+Proof.
+  induction 1 as [|e r He Hr IH]; cbn; [reflexivity|]. destruct e; cbn in *; [destruct He| | |]; exact IH.
+Qed.
+
+Lemma started_ok_In n log : In n (started_ok log) <-> exists j blk k, In (EvRun j blk true k) log /\ j_name j = n.
+Proof.
+  induction log as [|e r IH]; cbn.
+  - split; [intros []|intros [j [blk [k [[] _]]]]].
+  - destruct e as [j bl [|] l|m rc|j bl|a b]; cbn; rewrite ?IH.
+    + split.
+      * intros [E|[j' [b' [k' [H1 H2]]]]]; [exists j, bl, l; split; [left; reflexivity|exact E]|].
+        exists j', b', k'. split; [right; exact H1|exact H2].
+      * intros [j' [b' [k' [[E|H1] H2]]]]; [inversion E; subst; left; reflexivity|].
+        right. exists j', b', k'. split; assumption.
+    + split; intros [j' [b' [k' [H1 H2]]]]; exists j', b', k'; (split; [|exact H2]);
+        [right; exact H1|destruct H1 as [E|H1]; [discriminate|exact H1]].
+    + split; intros [j' [b' [k' [H1 H2]]]]; exists j', b', k'; (split; [|exact H2]);
+        [right; exact H1|destruct H1 as [E|H1]; [discriminate|exact H1]].
+    + split; intros [j' [b' [k' [H1 H2]]]]; exists j', b', k'; (split; [|exact H2]);
+        [right; exact H1|destruct H1 as [E|H1]; [discriminate|exact H1]].
+    + split; intros [j' [b' [k' [H1 H2]]]]; exists j', b', k'; (split; [|exact H2]);
+        [right; exact H1|destruct H1 as [E|H1]; [discriminate|exact H1]].
+Qed.
+
+Lemma onames_od_set e l n : In n (onames (od_set e l)) <-> n = e_name e \/ In n (onames l).
+Proof.
+  unfold onames. induction l as [|x r IH]; cbn.
+  - split; [intros [H|[]]; left; symmetry; exact H|intros [H|[]]; left; symmetry; exact H].
+  - destruct (N.eqb (e_name x) (e_name e)) eqn:E; cbn.
+    + apply N.eqb_eq in E. rewrite E. split; [intros [H|H]; [left; symmetry; exact H|right; right; exact H]|].
+      intros [H|[H|H]]; [left; symmetry; exact H|left; exact H|right; exact H].
+    + rewrite IH. tauto.
+Qed.
+
+Lemma onames_od_pop m l n : In n (onames (od_pop m l)) <-> In n (onames l) /\ n <> m.
+Proof.
+  unfold onames, od_pop. induction l as [|x r IH]; cbn; [tauto|].
+  destruct (N.eqb (e_name x) m) eqn:E; cbn.
+  - apply N.eqb_eq in E. rewrite IH. split; [tauto|]. intros [[H|H] Hn]; [congruence|tauto].
+  - apply N.eqb_neq in E. rewrite IH. split; [intros [H|H]; [subst; tauto|tauto]|tauto].
+Qed.
+
+Lemma onames_park canc : forall l n, In n (onames l) -> In n (onames (fold_left park canc l)).
+Proof.
+  induction canc as [|x r IH]; intros l n H; cbn; [exact H|].
+  apply IH. unfold park. apply onames_od_set. right. exact H.
+Qed.
+
+Definition held (T : list N) (s : qstate) : Prop :=
+  forall n, In n T -> In n (onames (q_out s)) \/ In n (cnames (q_log s)).
+
+Lemma handle_one_held T failed s name s' c : handle_one failed s name = (s', c) ->
+  In name (cnames (q_log s)) -> held T s -> held T s' /\ incl (cnames (q_log s)) (cnames (q_log s')).
+Proof.
+  unfold handle_one. destruct (sweep name failed (q_queued s)) as [[kept canc] evs] eqn:Hs.
+  intros H Hn Hh. inversion H; subst; clear H. cbn.
+  assert (Hi : incl (cnames (q_log s)) (cnames (q_log s ++ evs)))
+    by (rewrite cnames_app; apply incl_appl; apply incl_refl).
+  split; [|exact Hi]. intros n Hin. cbn.
+  destruct (Hh n Hin) as [H|H]; [|right; apply Hi; exact H].
+  destruct (N.eq_dec n name) as [->|Hne]; [right; apply Hi; exact Hn|].
+  left. apply onames_park. apply onames_od_pop. split; assumption.
+Qed.
+
+Lemma handle_all_held T failed names : forall s s' c, handle_all failed s names = (s', c) ->
+  (forall n, In n names -> In n (cnames (q_log s))) -> held T s ->
+  held T s' /\ incl (cnames (q_log s)) (cnames (q_log s')).
+Proof.
+  induction names as [|n r IH]; intros s s' c H Hn Hh; cbn in H.
+  - inversion H; subst. split; [exact Hh|apply incl_refl].
+  - destruct (handle_one failed s n) as [s1 c1] eqn:H1.
+    destruct (handle_all failed s1 r) as [s2 c2] eqn:H2. inversion H; subst; clear H.
+    destruct (handle_one_held T _ _ _ _ _ H1 (Hn n (or_introl eq_refl)) Hh) as [J1 I1].
+    destruct (IH _ _ _ H2 (fun m Hm => I1 _ (Hn m (or_intror Hm))) J1) as [J2 I2].
+    split; [exact J2|]. eapply incl_tran; eassumption.
+Qed.
+
+Lemma check_iter_held T failed s ans s2 rerun failed' ans' :
+  check_iter failed s ans = (s2, rerun, failed', ans') -> held T s -> held T s2.
+Proof.
+  unfold check_iter. destruct (scan (q_out s) ans) as [comp a] eqn:Hs.
+  match goal with |- context [handle_all ?f ?s1 ?n] => destruct (handle_all f s1 n) as [s2' r] eqn:Hh end.
+  intros H Hd. inversion H; subst; clear H.
+  eapply (handle_all_held T) in Hh; [exact (proj1 Hh)| |]; cbn.
+  - intros n Hn. rewrite cnames_app, cnames_completes. apply in_or_app. right. exact Hn.
+  - intros n Hn. cbn. destruct (Hd n Hn) as [H|H]; [left; exact H|right].
+    rewrite cnames_app. apply in_or_app. left. exact H.
+Qed.
+
+Lemma check_loop_held T : forall fuel failed s ans s' f' a',
+  check_loop fuel failed s ans = (s', f', a') -> held T s -> held T s'.
+Proof.
+  induction fuel as [|f IH]; intros failed s ans s' f' a' H Hd; cbn in H.
+  - inversion H; subst. exact Hd.
+  - destruct (check_iter failed s ans) as [[[s2 rerun] failed2] ans2] eqn:Hi.
+    apply (check_iter_held T) in Hi; [|exact Hd]. destruct rerun.
+    + eapply IH; eassumption.
+    + inversion H; subst. exact Hi.
+Qed.
+
+Definition lost_inv (existing : list N) (s : qstate) : Prop := held (existing ++ started_ok (q_log s)) s.
+
+Lemma run_job_lost existing s x ok : lost_inv existing s -> lost_inv existing (run_job s x ok).
+Proof.
+  intros H. unfold lost_inv, run_job. destruct ok; cbn.
+  - intros n Hn. cbn. rewrite started_ok_app in Hn. cbn in Hn.
+    rewrite cnames_app. cbn. rewrite app_nil_r.
+    apply in_app_or in Hn. destruct Hn as [Hn|Hn].
+    + destruct (H n (in_or_app _ _ _ (or_introl Hn))) as [H1|H1]; [left; apply onames_od_set; right; exact H1|right; exact H1].
+    + apply in_app_or in Hn. destruct Hn as [Hn|[<-|[]]].
+      * destruct (H n (in_or_app _ _ _ (or_intror Hn))) as [H1|H1]; [left; apply onames_od_set; right; exact H1|right; exact H1].
+      * left. apply onames_od_set. left. reflexivity.
+  - intros n Hn. cbn. rewrite started_ok_app in Hn. cbn in Hn. rewrite app_nil_r in Hn.
+    rewrite cnames_app. cbn. rewrite app_nil_r. exact (H n Hn).
+Qed.
+
+Lemma launch_lost existing avail q : forall count s runs s' rest runs',
+  launch avail q count s runs = (s', rest, runs') -> lost_inv existing s -> lost_inv existing s'.
+Proof.
+  induction q as [|x r IH]; intros count s runs s' rest runs' H Hl; cbn in H.
+  - inversion H; subst. exact Hl.
+  - destruct (negb (is_nil (qj_block x))).
+    + destruct (launch avail r count s runs) as [[s0 rest0] runs0] eqn:Hr.
+      inversion H; subst; clear H. eapply IH; eassumption.
+    + destruct (pop_run runs) as [ok runs1].
+      pose proof (run_job_lost existing s x ok Hl) as H1.
+      destruct (count + 1 >=? avail); [inversion H; subst; exact H1|eapply IH; eassumption].
+Qed.
+
+Lemma process_queue_lost existing depth s ans runs :
+  lost_inv existing s -> lost_inv existing (process_queue depth s ans runs).
+Proof.
+  intros Hl. unfold process_queue.
+  destruct (check_completions s ans) as [[s1 f1] a1] eqn:Hc.
+  pose proof (check_completions_facts _ _ _ _ _ Hc) as [[_ [_ [evs [G F]]]] _].
+  apply (check_loop_held (existing ++ started_ok (q_log s))) in Hc; [|exact Hl].
+  assert (L1 : lost_inv existing s1).
+  { unfold lost_inv. rewrite G, started_ok_app, (started_ok_norun _ F), app_nil_r. exact Hc. }
+  destruct (is_nil (q_queued s1)); [exact L1|].
+  destruct (depth - Z.of_nat (length (q_out s1)) =? 0); [exact L1|].
+  destruct (launch _ (q_queued s1) 0 s1 runs) as [[s2 rest] runs2] eqn:Hla.
+  apply (launch_lost existing) in Hla; [|exact L1]. exact Hla.
+Qed.
+
+Lemma submit_lost existing depth s j ok : lost_inv existing s -> lost_inv existing (submit depth s j ok).
+Proof.
+  intros Hl. unfold submit. destruct (is_full depth s); [exact Hl|].
+  destruct (negb (is_nil (j_block j))); [exact Hl|]. apply run_job_lost. exact Hl.
+Qed.
+
+Lemma run_ops_lost existing depth ops : forall s, lost_inv existing s -> lost_inv existing (run_ops depth s ops).
+Proof.
+  unfold run_ops. induction ops as [|o r IH]; intros s H; cbn; [exact H|].
+  apply IH. destruct o as [j ok|j ok|ans runs]; cbn.
+  - apply submit_lost; exact H.
+  - destruct (is_full depth s); [exact H|apply submit_lost; exact H].
+  - apply process_queue_lost; exact H.
+Qed.
+
+Lemma init_onames existing n : In n existing -> In n (onames (q_out (init existing))).
+Proof.
+  unfold init. cbn.
+  assert (G : forall l acc, In n l \/ In n (onames acc) ->
+             In n (onames (fold_left (fun acc n => od_set (mk_entry n false) acc) l acc))).
+  { induction l as [|m r IH]; intros acc H; cbn; [destruct H as [[]|H]; exact H|].
+    apply IH. destruct H as [[<-|H]|H]; [right; apply onames_od_set; left; reflexivity|left; exact H|].
+    right. apply onames_od_set. right. exact H. }
+  intros H. apply G. left. exact H.
+Qed.
+
+Theorem queue_no_lost_entry : forall depth existing ops n,
+  let s := run_ops depth (init existing) ops in
+  In n existing \/ (exists j blk k, In (EvRun j blk true k) (q_log s) /\ j_name j = n) ->
+  In n (map e_name (q_out s)) \/ exists rc, In (EvComplete n rc) (q_log s).
+Proof.
+  intros depth existing ops n s H.
+  assert (I0 : lost_inv existing (init existing)).
+  { intros m Hm. cbn in Hm. rewrite app_nil_r in Hm. left. apply init_onames. exact Hm. }
+  pose proof (run_ops_lost existing depth ops _ I0) as L. fold s in L.
+  destruct (L n) as [H1|H1].
+  - apply in_or_app. destruct H as [H|H]; [left; exact H|right; apply started_ok_In; exact H].
+  - left. exact H1.
+  - right. apply cnames_In. exact H1.
+Qed.
